@@ -94,6 +94,7 @@ fn u_space(tier: Tier) -> Vec<Universe> {
                     ],
                     k1: false,
                     mapping: None,
+                    extra_sentences: vec![],
                 });
             }
         }
